@@ -23,7 +23,9 @@ CONSTANTS MAX,              \* scaled size limit (kMaxPayloadSize)
           MaxFrames,        \* bound: frames put on the wire / sends attempted
           BufferOversized,  \* deviation: an oversized frame is read into a buffer and the loop continues
           NonceReuse,       \* deviation: every frame uses the same nonce
-          DupDeliver        \* deviation: a frame is handed to the handler twice
+          DupDeliver,       \* deviation: a frame is handed to the handler twice
+          AllowReconnect,   \* the session may end and be established again under the SAME key (peer drops, manager connects again)
+          NoncePerSession   \* deviation: the nonce source restarts with every session (a per-session counter under a per-manager prefix)
 
 VARIABLES wire,         \* frames in flight, in stream order
           open,         \* the session exists
@@ -91,6 +93,16 @@ Recv ==
               /\ UNCHANGED <<open, buffered, sawOversized>>
     /\ UNCHANGED <<sends, sentNonces, nextNonce, attempts>>
 
+\* the peer drops the connection / the manager connects again to the same peer: the key (and with it everything sent under it)
+\* stays, so "a fresh nonce" spans sessions
+Drop == /\ AllowReconnect /\ open /\ open' = FALSE /\ wire' = <<>> /\ obs' = <<"drop">>
+        /\ UNCHANGED <<sends, delivered, sentNonces, nextNonce, buffered, sawOversized, attempts>>
+Reconnect == /\ AllowReconnect /\ ~open /\ open' = TRUE /\ wire' = <<>> /\ sawOversized' = FALSE /\ obs' = <<"reconnect">>
+             /\ nextNonce' = IF NoncePerSession THEN 0 ELSE nextNonce
+             \* what was cut off by the drop is no longer owed to the handler: the ghost starts over (the nonces do not)
+             /\ sends' = <<>> /\ delivered' = <<>>
+             /\ UNCHANGED <<sentNonces, buffered, attempts>>
+
 -----------------------------------------------------------------------------
 (* CONTRACT invariants (C14)                                                               *)
 C14_InOrderExactlyOnce == DeliveredOk(delivered, sends)
@@ -112,12 +124,14 @@ C14_RefusedSendNoEffect == [][(obs'[1] = "send" /\ ~obs'[3]) => UNCHANGED <<wire
 Acts == {[op |-> "send", p |-> p] : p \in Payloads}
    \cup {[op |-> "rawok", body |-> b] : b \in RawValid}
    \cup {[op |-> "rawbig", len |-> x[1], body |-> x[2]] : x \in RawOversized}
-   \cup {[op |-> "recv"]}
+   \cup {[op |-> "recv"], [op |-> "drop"], [op |-> "reconnect"]}
 
 Do(a) == CASE a.op = "send"   -> Send(a.p)
            [] a.op = "rawok"  -> RawOk(a.body)
            [] a.op = "rawbig" -> RawBig(a.len, a.body)
            [] a.op = "recv"   -> Recv
+           [] a.op = "drop"   -> Drop
+           [] a.op = "reconnect" -> Reconnect
 
 MCInit == Init /\ hist = <<>>
 MCNext == \E a \in Acts : Do(a) /\ hist' = Append(hist, a)
